@@ -377,11 +377,18 @@ class SymExec:
             bind[g.node.args.vararg.arg] = ast.Tuple(elts=list(call.args[len(params):]), ctx=ast.Load())
         elif len(call.args) > len(params):
             return None
+        extra_kw = []
+        names_ = set(g.all_params)
         for k in call.keywords:
             if k.arg is None:
                 bind[g.node.args.kwarg.arg] = k.value
+            elif k.arg not in names_ and g.node.args.kwarg is not None:
+                extra_kw.append(k)          # collected by **kw of the callee
             else:
                 bind[k.arg] = k.value
+        if g.node.args.kwarg is not None and g.node.args.kwarg.arg not in bind:
+            bind[g.node.args.kwarg.arg] = ast.Dict(keys=[ast.Constant(value=k.arg) for k in extra_kw],
+                                                   values=[k.value for k in extra_kw])
         a_ = g.node.args
         pos = a_.posonlyargs + a_.args
         for p_, d in zip(pos[len(pos) - len(a_.defaults):], a_.defaults):
@@ -1483,6 +1490,30 @@ class SymExec:
                     q2.env[nm_] = ast.Dict(keys=ks_, values=vs_)
                     outp.append(q2)
             return outp
+        if isinstance(st, ast.Expr) and isinstance(st.value, ast.Call) and isinstance(st.value.func, ast.Attribute) and \
+           st.value.func.attr == 'update' and isinstance(st.value.func.value, ast.Name) and \
+           _as_dict(p.env.get(st.value.func.value.id)) is not None and len(st.value.args) == 1 and not st.value.keywords:
+            # d.update(other) with both dicts known entry by entry (other may come from a helper: one path each)
+            nm_ = st.value.func.value.id
+            outp = []
+            for v_, q2 in self.eval_expr(st.value.args[0], p):
+                o_ = _as_dict(v_)
+                cur_ = _as_dict(q2.env.get(nm_))
+                if o_ is None or cur_ is None:
+                    outp = None
+                    break
+                ks_, vs_ = list(cur_.keys), list(cur_.values)
+                for k_, x_ in zip(o_.keys, o_.values):
+                    hit_ = [i_ for i_, y_ in enumerate(ks_) if isinstance(y_, ast.Constant) and y_.value == k_.value]
+                    if hit_:
+                        vs_[hit_[0]] = x_
+                    else:
+                        ks_.append(k_)
+                        vs_.append(x_)
+                q2.env[nm_] = ast.Dict(keys=ks_, values=vs_)
+                outp.append(q2)
+            if outp is not None:
+                return outp
         if isinstance(st, ast.Expr) and isinstance(st.value, ast.Call):
             out = []
             c0 = st.value
